@@ -320,6 +320,7 @@ Definition pk_step (s : pk_st) (e : event) : option pk_st :=
       | None => Some s
       end
   | EDelete g Incoming _ _ => Some (PkSt (pk_last s) (pk_open s) (adel (pk_busy s) g) (pk_over s))
+  | EAckRet _ g => Some (PkSt (pk_last s) (pk_open s) (adel (pk_busy s) g) (pk_over s))   (* the closure is over *)
   | _ => Some s
   end.
 Definition prompt_acks (es : list event) : bool := scan pk_step (PkSt [] [] [] []) es.
